@@ -6,6 +6,7 @@ use serde_json::{json, Value};
 use std::cell::RefCell;
 use std::panic::{catch_unwind, AssertUnwindSafe};
 use std::sync::atomic::Ordering::SeqCst;
+use std::sync::Arc;
 
 #[derive(Clone, Copy, Debug, PartialEq, Eq, Hash)]
 pub enum DdKind { Lel, Fc, Pooled }
@@ -101,7 +102,7 @@ fn run_seq_inner<D, C>(m: &dyn Model, spec: &RunSpec) -> Out
 where D: DecisionDiagram<State = St> + Default, C: Cache<State = St> + Default {
     let rec = RecModel(m);
     let rank = RankRef(m);
-    let width = FixedWidth(spec.cfg.width);
+    let width = RecWidth { w: spec.cfg.width, sink: None };
     let dom = RecDom::new(m);
     let cut = KCut::new(spec.fire_at, fuel_for(m));
     let mut simple = SimpleFringe::new(MaxUB::new(&rank));
@@ -161,7 +162,9 @@ fn run_par_inner<D, C>(m: &dyn Model, spec: &RunSpec, threads: usize) -> Out
 where D: DecisionDiagram<State = St> + Default, C: Cache<State = St> + Default + Send + Sync {
     let rec = RecModel(m);
     let rank = RankRef(m);
-    let width = FixedWidth(spec.cfg.width);
+    // the workers of the parallel solver are fresh threads: the width wrapper switches their recorders on (rec.rs)
+    let sink = if spec.record { Some(Arc::new(ParSink { all_impacted: m.all_impacted(), ..Default::default() })) } else { None };
+    let width = RecWidth { w: spec.cfg.width, sink: sink.clone() };
     let dom = RecDom::new(m);
     let cut = KCut::new(spec.fire_at, fuel_for(m));
     let mut simple = SimpleFringe::new(MaxUB::new(&rank));
@@ -187,6 +190,11 @@ where D: DecisionDiagram<State = St> + Default, C: Cache<State = St> + Default +
     }
     out.polls = cut.polls.load(SeqCst);
     out.fuel_out = cut.exhausted.load(SeqCst);
+    if let Some(s) = sink {
+        out.alarms12 = std::mem::take(&mut *s.alarms12.lock().unwrap());
+        out.alarms13 = std::mem::take(&mut *s.alarms13.lock().unwrap());
+        out.stats = s.stats.lock().unwrap().clone();
+    }
     out
 }
 /// Runs the parallel solver in a helper thread; `None` = maximize() did not return (twice: 20 s, then 120 s; the threads are abandoned)
